@@ -318,6 +318,10 @@ func sameGroups(a, b []string) bool {
 	return true
 }
 
+// SawEvictedNomination: did a statement of this cycle evict the NOMINATION of a pod evicted earlier in the
+// cycle (open finding "evicted nominations")? Queue usage is then off by that finding's own mechanism.
+func (tr *Tracker) SawEvictedNomination() bool { return len(tr.nominationEvicted) > 0 }
+
 func (tr *Tracker) OnDeallocate(t *pod_info.PodInfo) {
 	key := t.Namespace + "/" + t.Name
 	tr.lastEvent[key] = "dealloc"
